@@ -337,20 +337,25 @@ def finalizeFile (s : State) : State × Bool :=
     | none => (s, false)
     | some fs' => ({ s with fs := fs', tempFile := none }, true)
 
+/-- `verify_checksum` on the staging file (opening it creates an empty one if no data ever arrived);
+false = the FileChecksumFailure fault handler stopped the finalisation -/
+def verifyStage (s : State) (now : Nat) : State × Bool :=
+  let ck := s.checksum.getD 0
+  let ct := match s.md with | some m => m.cksumType | none => .Null
+  let s := { s with tempFile := some (s.tempFile.getD []) }
+  if !(fileChecksum ct (s.tempFile.getD []) == ck) then handleFault s .FileChecksumFailure now else (s, true)
+
+/-- `finalize_file().unwrap_or(FileStoreRejection)`: copy to the destination name and record the file status -/
+def copyStage (s : State) : State × Bool :=
+  let w := finalizeFile s
+  if w.2 then ({ w.1 with fileStatus := .Retained }, true)
+  else ({ s with fileStatus := .FileStoreRejection }, true)
+
 /-- the file part of `finalize_receive`: checksum verification and copy to the destination -/
 def finalizeFilePart (s : State) (now : Nat) : State × Bool :=
   if isFileTransfer s then
-    let ck := s.checksum.getD 0
-    let ct := match s.md with | some m => m.cksumType | none => .Null
-    -- verify_checksum opens the staging file (creating an empty one if none exists yet)
-    let s := { s with tempFile := some (s.tempFile.getD []) }
-    let okck := fileChecksum ct (s.tempFile.getD []) == ck
-    let f := if !okck then handleFault s .FileChecksumFailure now else (s, true)
-    if !f.2 then (f.1, false)
-    else
-      let w := finalizeFile f.1
-      if w.2 then ({ w.1 with fileStatus := .Retained }, true)
-      else ({ f.1 with fileStatus := .FileStoreRejection }, true)
+    let f := verifyStage s now
+    if !f.2 then (f.1, false) else copyStage f.1
   else ({ s with fileStatus := .Unreported }, true)
 
 /-- `finalize_receive`; returns false when a fault handler stopped the finalisation -/
